@@ -164,8 +164,8 @@ PLAN["C05"]["fidelity"] = FID_RING
 def _sim(name, num, depth):
     return dict(spec=name.rstrip("0123456789"), cfg=name + ".cfg", num=num, depth=depth)
 
-SIM_TREES = [_sim("SimRBT", 12, 160), _sim("SimAVL", 12, 160), _sim("SimBT3", 8, 200), _sim("SimBT4", 6, 200),
-             _sim("SimBT5", 6, 200), _sim("SimBT8", 6, 200), _sim("SimBT12", 6, 200)]
+SIM_TREES = [_sim("SimRBT", 16, 160), _sim("SimAVL", 16, 160), _sim("SimBT3", 10, 200), _sim("SimBT4", 8, 200),
+             _sim("SimBT5", 8, 200), _sim("SimBT8", 8, 200), _sim("SimBT12", 8, 200)]
 for _p in ("C01", "C02", "C07"):
     PLAN[_p]["sim"] = SIM_TREES
 PLAN["C06"]["fidelity"] = FID_HEAP
